@@ -13,9 +13,9 @@ World *g_world = nullptr;
 
 const char *rk_names[] = { "data", "data_ttl5", "data_ttl0", "nodata", "nodata_nosoa", "nxdomain", "nxdomain_nosoa", "servfail",
                            "refused", "notimp", "formerr_noopt", "formerr_opt", "tc", "malformed", "empty", "ck_none", "ck_valid",
-                           "ck_valid2", "ck_wrongclient", "badcookie", "badcookie_bare", "cname_data", "data_mixed", "data_multi", "data_soa" };
+                           "ck_valid2", "ck_wrongclient", "badcookie", "badcookie_bare", "cname_data", "data_mixed", "data_multi", "data_soa", "notauth" };
 const char *fg_names[] = { "wrongid", "wrongname", "wrongtype", "wrongclass", "caseflip", "wrongsrc", "othersock", "nocookie", "badclientcookie", "wrongsrc-framed" };
-const char *fs_names[] = { "socket", "setsockopt", "bind", "connect", "getsockname", "send_refused", "send_wouldblock", "send_short", "recv_reset" };
+const char *fs_names[] = { "socket", "setsockopt", "bind", "connect", "getsockname", "send_refused", "send_wouldblock", "send_short", "recv_reset", "send_eintr", "recv_eintr" };
 
 static std::string fmt(const char *f, ...)
 {
@@ -402,6 +402,13 @@ static ares_ssize_t s_recvfrom(ares_socket_t fd, void *buf, size_t len, int, str
     errno = ECONNRESET;
     return -1;
   }
+  if (take_fault(w, FS_RECV_EINTR)) {
+    // an interrupted system call: the library has no retry loop for it and treats it like any other read error
+    w->net_fails.push_back({ ++w->seq, s->server, fd });
+    w->log(fmt("recv(%d) -> EINTR", fd));
+    errno = EINTR;
+    return -1;
+  }
   if (!s->tcp) {
     if (s->inq.empty()) {
       errno = EWOULDBLOCK;
@@ -477,6 +484,12 @@ static ares_ssize_t s_sendto(ares_socket_t fd, const void *buf, size_t len, int,
     w->log(fmt("send(%d) -> ECONNREFUSED", fd));
     w->net_fails.push_back({ ++w->seq, s->server, fd });
     errno = ECONNREFUSED;
+    return -1;
+  }
+  if (take_fault(w, FS_SEND_EINTR)) {
+    w->log(fmt("send(%d) -> EINTR", fd));
+    w->net_fails.push_back({ ++w->seq, s->server, fd });
+    errno = EINTR;
     return -1;
   }
   if (take_fault(w, FS_SEND_WOULDBLOCK)) {
@@ -1588,6 +1601,10 @@ Bytes World::build_reply(const Transmission &tx, int kind, Packet &pk)
       add_data(50, qq.qtype, owner);
       add_data(7, qq.qtype, owner);
       pk.ttl = 7;
+      break;
+    case RK_NOTAUTH:
+      r.rcode = 9;
+      add_data(100, qq.qtype, owner);
       break;
     case RK_DATA_SOA:
       soa(10, 5);
